@@ -64,6 +64,7 @@ func runC10(c *Ctx) {
 	c10AfterClose(c)
 	c10RealSockets(c)
 	c10MidHandshake(c)
+	c10DialMidHandshake(c)
 	c10QueuedHandshakes(c)
 	c10DialRacingClose(c)
 	c10BystanderListener(c)
